@@ -43,6 +43,11 @@ def _fn(kind):
             "html": N.number_to_scientific_html}[kind]
 
 
+def _pq():
+    import quantities
+    return quantities
+
+
 def _unit(name):
     from chempy.units import default_units as u
     return {
@@ -59,13 +64,17 @@ def _unit(name):
         "mol/m3": u.mol / u.m ** 3,
         "kJ/mol": u.kilojoule / u.mol, "J/mol": u.joule / u.mol,
         "g": u.gram, "kg": u.kg, "ms": u.ms, "s": u.s, "hour": u.hour, "min": u.minute,
+        # pure numbers in scaled ratio units ("1" = the dimensionless unit)
+        "1": _pq().dimensionless, "percent": u.percent, "mM/M": u.mM / u.M, "cm/m": u.cm / u.m, "mm/km": u.mm / u.km,
     }[name]
 
 
 # (from, to) pairs of Numbers!ConvTable the seeded generator draws from; the factor is the spec's
 CONVS = [("km", "m"), ("m", "km"), ("m", "cm"), ("cm", "m"), ("mm", "m"), ("m3/mol/s", "1/M/s"),
          ("1/M/s", "m3/mol/s"), ("M", "mol/m3"), ("mol/m3", "M"), ("kJ/mol", "J/mol"), ("g", "kg"),
-         ("kg", "g"), ("ms", "s"), ("hour", "s"), ("min", "s"), ("hour", "min"), ("hour", "ms"), ("s", "ms"), ("km", "cm")]
+         ("kg", "g"), ("ms", "s"), ("hour", "s"), ("min", "s"), ("hour", "min"), ("hour", "ms"), ("s", "ms"), ("km", "cm"),
+         ("1", "percent"), ("percent", "1"), ("mM/M", "percent"), ("percent", "mM/M"), ("cm/m", "percent"),
+         ("mM/M", "1"), ("1", "mM/M"), ("mm/km", "mM/M"), ("cm/m", "mm/km")]
 
 
 def _unit_text(kind, unit):
@@ -98,7 +107,54 @@ def _efmt(n):
     return lambda v, *a: ("%%.%de" % (n - 1)) % v
 
 
+class CallFailed(Exception):
+    """chempy raised; carries the input events so that TLC can still say whether the input is in the model."""
+
+    def __init__(self, events, exc):
+        Exception.__init__(self, "%s: %s" % (type(exc).__name__, str(exc)[:200]))
+        self.events = events
+
+
 def call(spec):
+    ev = []
+    try:
+        return _call(spec, ev)
+    except CallFailed:
+        raise
+    except Exception as e:
+        raise CallFailed(list(ev), e)
+
+
+def _input_events(spec, opt, utext, fname, uname, src):
+    ev = [{"k": "value", "x": nc.dec_of(spec["x"])}]
+    if opt != DEFAULT_OPT:
+        ev.append({"k": "options", "o": opt})
+    if utext:
+        ev.append({"k": "unit", "u": utext})
+    if fname:
+        ev.append({"k": "convert", "from": fname, "to": uname})
+    if "xe" in spec:
+        ev += [{"k": "uncert", "xe": nc.dec_of(spec["xe"]), "p": spec["p"], "src": src}, {"k": "formatu"}]
+    else:
+        ev += [{"k": "prec", "n": spec["n"]}, {"k": "format"}]
+    return ev
+
+
+def _expected_unit_text(fn, printer, unit):
+    """What the unit renders to on its own in the presentation at hand."""
+    if unit is None or fn == "uncert_plain":
+        return ""
+    if printer in ("string", "html"):
+        return str(unit.dimensionality)
+    if printer == "unicode":
+        return unit.dimensionality.unicode
+    if printer == "latex":
+        from chempy.units import _latex_from_dimensionality
+        return _latex_from_dimensionality(unit.dimensionality)
+    return _unit_text(fn, unit)
+
+
+def _call(spec, evout):
     """spec: {"fn": kind | "plain" | "rxn-unicode" | "rxn-latex" | "rxn-html" | "uncert_plain" | "arrh" |
     "roman", "x", "n" | ("xe", "p", "src"), "unit", "from", "opt"}: x (and xe) are given in unit "from"
     (default: "unit") and printed in "unit"; src "attr": the uncertainty is carried by the number itself
@@ -119,9 +175,11 @@ def call(spec):
     given = _unit(fname) if fname else unit      # the unit the input is expressed in
     src = spec.get("src", "arg")
     xv = _typed(x, opt["xty"])
-    ev = [{"k": "value", "x": nc.dec_of(x)}]
-    if opt != DEFAULT_OPT:
-        ev.append({"k": "options", "o": opt})
+    printer = {"plain": "string", "rxn-unicode": "unicode", "rxn-latex": "latex", "rxn-html": "html"}.get(
+        fn, spec.get("printer") if fn == "arrh" else None)
+    utext = _expected_unit_text(fn, printer, unit)
+    ev = _input_events(spec, opt, utext, fname, uname, src)
+    evout.extend(ev)
     lexkind = fn
     which = None
     if fn in ("plain", "rxn-unicode", "rxn-latex", "rxn-html", "arrh"):
@@ -191,14 +249,6 @@ def call(spec):
                 txt = f(xv, spec["xe"], **kw)
         else:
             txt = f(xv * given if given is not None else xv, **kw)
-    if utext:
-        ev.append({"k": "unit", "u": utext})
-    if fname:
-        ev.append({"k": "convert", "from": fname, "to": uname})
-    if "xe" in spec:
-        ev += [{"k": "uncert", "xe": nc.dec_of(spec["xe"]), "p": spec["p"], "src": src}, {"k": "formatu"}]
-    else:
-        ev += [{"k": "prec", "n": spec["n"]}, {"k": "format"}]
     if which is not None:
         # a rate expression: the numbers written inside it, in order (pre-exponential factor, activation energy)
         found = nc.lex_embedded(txt, lexkind)
@@ -215,8 +265,10 @@ def _call_safe(spec):
     try:
         tr, txt = call(spec)
         return {"trace": tr, "txt": txt}
-    except Exception as e:  # a formatter that raises on an in-domain value is reported, not hidden
-        return {"exc": "%s: %s" % (type(e).__name__, str(e)[:200])}
+    except CallFailed as e:  # a formatter that raises on an in-domain value is reported, not hidden
+        return {"exc": str(e), "inputs": e.events}
+    except Exception as e:
+        return {"exc": "%s: %s" % (type(e).__name__, str(e)[:200]), "inputs": []}
 
 
 # ---------------------------------------------------------------- seeded inputs beyond the bounds
@@ -267,7 +319,7 @@ def _rand_uncert(rng, x):
     return xe
 
 
-UNITS = ["m/s", "mol/dm3/s", "1/M/s", "kg*m2/s2", "J/K/mol", "1/s", "M"]
+UNITS = ["m/s", "mol/dm3/s", "1/M/s", "kg*m2/s2", "J/K/mol", "1/s", "M", "percent", "mM/M", "cm/m", "mm/km", "1"]
 
 
 def _rand_float17(rng):
@@ -418,7 +470,21 @@ def _judge(ctx, specs, outs, cases=None, cfg="NumbersTrace.cfg"):
     """Validate all observations with TLC; report rejections."""
     import core
     traces, keep = [], []
+    # calls that raised although their uncertainty is expressed in another unit: TLC says whether the
+    # input is inside the quantifier at all (2u <= |x| in the display unit, guard of Numbers!ChooseUncert)
+    doubt = [j for j, (sp, o) in enumerate(zip(specs, outs))
+             if "exc" in o and o.get("inputs") and (sp.get("opt") or {}).get("ucv", {}).get("from")]
+    outside = set()
+    if doubt:
+        dummy = {"k": "result", "obs": dict(nc.lex_number("", "plain"), text=None)}
+        for d in doubt:
+            dummy["obs"].pop("text", None)
+        vs = ctx.validate_traces("NumbersTrace", cfg, [outs[j]["inputs"] + [dummy] for j in doubt], count=False)
+        outside = set(j for j, (v, pos, clause) in zip(doubt, vs) if clause == "step:uncert")
     for j, (sp, o) in enumerate(zip(specs, outs)):
+        if j in outside:
+            ctx.skip("uncertainty-above-half-value-after-conversion")
+            continue
         if "exc" in o:
             key = {"fn": sp["fn"], "what": "raises", "exc": o["exc"].split(":")[0]}
             if "xe" in sp:
@@ -458,8 +524,8 @@ NEED = {
     "decades": ["num-sci", "-carry", "-one"],
     "uncert": ["unc-plain", "unc-exp", "-carry", "-ucarry", "-int"],
     "roman": ["roman"],
-    "conv": ["-conv", "-attr", "-arg", "num-", "unc-"],
-    "opts": ["-impl", "-e", "-int", "-npfloat", "-nparray", "-npint", "-rxnstring", "-ucv", "roman", "-conv"],
+    "conv": ["-conv", "-attr", "-arg", "num-", "unc-", "-ratio"],
+    "opts": ["-impl", "-e", "-int", "-npfloat", "-nparray", "-npint", "-rxnstring", "-ucv", "roman", "-conv", "-ratio"],
 }
 
 
